@@ -325,6 +325,25 @@ func (w *World) BuildMsg(e Event) (msg sdk.Msg, commit func()) {
 				}
 			}
 		}
+	case "tx:deposits-bad-headers":
+		// a batch over three heights: genuine, header not hashing to the voted hash, unvoted height
+		tip := w.BtcTip()
+		b0, ok0 := w.Bot.Blocks[tip-1]
+		b1, ok1 := w.Bot.Blocks[tip]
+		if !ok0 || !ok1 {
+			return nil, nil
+		}
+		mk := func(b *sim.BtcBlock, height uint64, i int) *bitcointypes.Deposit {
+			evm := common.BytesToAddress([]byte{byte(b.Height), byte(i)})
+			return &bitcointypes.Deposit{Version: 0, BlockNumber: height, TxIndex: uint32(i), NoWitnessTx: b.Txs[i], OutputIndex: 0,
+				IntermediateProof: b.Proof(i), EvmAddress: evm.Bytes(), RelayerPubkey: w.N.Cfg.BtcKey.Public()}
+		}
+		bad := append([]byte{}, b1.Header...)
+		bad[70] ^= 1
+		m := &bitcointypes.MsgNewDeposits{Proposer: rel.Proposer,
+			Deposits: []*bitcointypes.Deposit{mk(b0, b0.Height, 9), mk(b1, b1.Height, 9), mk(b1, tip+7, 8)},
+			BlockHeaders: []*bitcointypes.BlockHeader{{Height: b0.Height, Raw: b0.Header}, {Height: b1.Height, Raw: bad}, {Height: tip + 7, Raw: b1.Header}}}
+		return m, func() {}
 	case "tx:deposits":
 		var deps []*bitcointypes.Deposit
 		hdrs := map[uint64]*bitcointypes.BlockHeader{}
